@@ -1,5 +1,3 @@
-//go:build verif_c16
-
 package harness
 
 import (
@@ -41,8 +39,13 @@ import (
 // is filled with a synthetic legacy storage and updated to the tree's
 // contract with data = [..., v]; the new code's _deploy(data, true) runs the
 // real migration on that storage.
-// Both parts record (storage before, halt/fault, storage after, version())
-// and are replayed by Model/Migration.v inside Coq (cases_C16.v).
+// Part C (Alphabet GAS distribution): the Alphabet stub, funded with GAS and
+// pointed at a stand-in Netmap contract (testdata/c16netmap), is updated from
+// 0.16 with the notary flag set; the GAS transfers are read from the
+// notifications.
+// All parts record (storage before, halt/fault, storage after, version() or
+// the transfer list) and are replayed by Model/Migration.v inside Coq
+// (cases_C16.v, or cases_C16_<k>.v when the run is large).
 
 type c16Contract struct {
 	Name string // directory under contracts/
@@ -125,12 +128,12 @@ func c16MultiSigner(t testing.TB, m int, accs []*wallet.Account) neotest.Signer 
 // Coq literals of this family
 
 type c16Item struct { // a stack item passed as `data`
-	Null  bool       `json:"null,omitempty"`
-	Int   *big.Int   `json:"int,omitempty"`
-	Bytes []byte     `json:"bytes,omitempty"`
-	Bool  *bool      `json:"bool,omitempty"`
-	List  []c16Item  `json:"list,omitempty"`
-	IsArr bool       `json:"arr,omitempty"`
+	Null  bool      `json:"null,omitempty"`
+	Int   *big.Int  `json:"int,omitempty"`
+	Bytes []byte    `json:"bytes,omitempty"`
+	Bool  *bool     `json:"bool,omitempty"`
+	List  []c16Item `json:"list,omitempty"`
+	IsArr bool      `json:"arr,omitempty"`
 }
 
 func c16Arr(xs ...c16Item) c16Item { return c16Item{IsArr: true, List: xs} }
@@ -414,14 +417,14 @@ func c16Account(t testing.TB, r *rand.Rand) *wallet.Account {
 }
 
 type gateCase struct {
-	Contract string   `json:"contract"`
-	V        int64    `json:"deployed_version"`
-	Signers  string   `json:"signers"`
-	Data     c16Item  `json:"data"`
-	NoNef    bool     `json:"no_nef_no_manifest,omitempty"`
-	Halt     bool     `json:"halt"`
-	Fault    string   `json:"fault,omitempty"`
-	Version  int64    `json:"version_after"`
+	Contract string  `json:"contract"`
+	V        int64   `json:"deployed_version"`
+	Signers  string  `json:"signers"`
+	Data     c16Item `json:"data"`
+	NoNef    bool    `json:"no_nef_no_manifest,omitempty"`
+	Halt     bool    `json:"halt"`
+	Fault    string  `json:"fault,omitempty"`
+	Version  int64   `json:"version_after"`
 }
 
 func shortFault(s string) string {
@@ -440,15 +443,18 @@ func shortFault(s string) string {
 
 // c16Run is the state of one TestC16 run.
 type c16Run struct {
-	t        *testing.T
-	w        *c16Writer
-	st       *Stats
-	msTable  map[string]string // Coq rows of the multisig table
-	msOrder  []string
-	h160     map[string][]byte // RIPEMD-160 table (NNS)
-	distinct map[string]bool
-	tree     map[string]*neotest.Contract
-	pools    *c16Pools
+	t          *testing.T
+	w          *c16Writer
+	st         *Stats
+	msTable    map[string]string // Coq rows of the multisig table
+	msOrder    []string
+	h160       map[string][]byte // RIPEMD-160 table (NNS)
+	distinct   map[string]bool
+	tree       map[string]*neotest.Contract
+	pools      *c16Pools
+	files      int
+	acases     []string
+	stdaccRows map[string]string
 }
 
 func (r *c16Run) msRow(m int, ks [][]byte, addr []byte) {
@@ -480,6 +486,7 @@ func (r *c16Run) envCoq(height uint32, com, des [][]byte, wit [][]byte) string {
 // carry version v.
 func (r *c16Run) gateSweep(v int64, withAlphabet bool, sets []string) {
 	t := r.t
+	r.roll(false)
 	root := c16Scratch(t, v)
 	g := newGateChain(t, v, root, withAlphabet)
 	sender := g.E.Validator.ScriptHash()
@@ -599,6 +606,33 @@ func (r *c16Run) gateSweep(v int64, withAlphabet bool, sets []string) {
 	r.st.Histories++
 }
 
+// roll starts a new cases file when the current one has grown large (the
+// thorough tier produces several cases_C16_<k>.v, each printing its own M).
+func (r *c16Run) roll(force bool) {
+	size := 0
+	for _, c := range r.w.cases {
+		size += len(c)
+	}
+	for _, b := range r.w.pool.order {
+		size += 4*len(b) + 30
+	}
+	for _, d := range r.w.dord {
+		size += len(d)
+	}
+	if !force && size < 380_000 {
+		return
+	}
+	name := "cases_C16.v"
+	if r.files > 0 || !force {
+		name = fmt.Sprintf("cases_C16_%d.v", r.files+1)
+	}
+	r.writeCases(filepath.Join(OutDir(), name), r.acases, r.stdaccRows)
+	r.files++
+	r.w = newC16Writer()
+	r.msTable, r.msOrder = map[string]string{}, nil
+	r.acases, r.stdaccRows = nil, map[string]string{}
+}
+
 func (r *c16Run) writeCases(path string, acases []string, stdaccRows map[string]string) {
 	var sb strings.Builder
 	sb.WriteString("From Verif Require Import Base.Prelude Model.MigStore Model.Migration.\nLocal Open Scope Z_scope.\n")
@@ -632,7 +666,11 @@ func (r *c16Run) writeCases(path string, acases []string, stdaccRows map[string]
 
 func TestC16(t *testing.T) {
 	r := &c16Run{t: t, w: newC16Writer(), st: NewStats("C16"), msTable: map[string]string{}, h160: map[string][]byte{},
-		distinct: map[string]bool{}, tree: map[string]*neotest.Contract{}}
+		distinct: map[string]bool{}, tree: map[string]*neotest.Contract{}, stdaccRows: map[string]string{}}
+	old, _ := filepath.Glob(filepath.Join(OutDir(), "cases_C16*.v"))
+	for _, f := range old {
+		_ = os.Remove(f)
+	}
 	prev, ver := int64(common.PrevVersion), int64(common.Version)
 	require.Less(t, prev, ver)
 	versions := []int64{prev - 1, prev, prev + 1, 16999, 17000, ver - 1, ver, ver + 1, 0, -1}
@@ -650,11 +688,13 @@ func TestC16(t *testing.T) {
 	r.gateSweep(prev, false, []string{"stranger", "committee4of6"})
 	r.pools = newC16Pools()
 	r.partB()
-	acases, stdaccRows := r.partC()
+	r.partC()
 
 	r.st.DistinctNontrivial = len(r.distinct)
 	r.st.Rule = "distinct (part, contract, deployed version or storage shape signature, signer set / data shape, outcome incl. fault reason) tuples"
-	r.writeCases(filepath.Join(OutDir(), "cases_C16.v"), acases, stdaccRows)
+	r.roll(true)
+	r.st.Extra["cases_files"] = r.files
+	r.st.Extra["prev_version"], r.st.Extra["version"] = common.PrevVersion, common.Version
 	r.st.Write()
 }
 
@@ -752,22 +792,22 @@ type legacy struct {
 	// ground truth
 	balances  map[string]int64
 	supply    int64
-	cnrs      map[string]cnrTruth // cid -> truth
-	preX      map[string][]byte   // already prefixed containers
-	nm        *nmTruth
-	nns       *nnsTruth
+	cnrs      map[string]c16CnrTruth // cid -> truth
+	preX      map[string][]byte      // already prefixed containers
+	nm        *c16NmTruth
+	nns       *c16NNSTruth
 	untouched map[string][]byte // keys that must survive with their values
 	gone      []string          // keys that must be absent afterwards
 }
 
-type cnrTruth struct {
+type c16CnrTruth struct {
 	value, sig, pub, token, owner, eacl []byte
 }
 
-func (l *legacy) put(k, v []byte)      { l.KV[string(k)] = v }
-func (l *legacy) shape(s string)       { l.Shape = append(l.Shape, s) }
-func (l *legacy) keep(k, v []byte)     { l.put(k, v); l.untouched[string(k)] = v }
-func cat(xs ...[]byte) []byte          { return bytes.Join(xs, nil) }
+func (l *legacy) put(k, v []byte)        { l.KV[string(k)] = v }
+func (l *legacy) shape(s string)         { l.Shape = append(l.Shape, s) }
+func (l *legacy) keep(k, v []byte)       { l.put(k, v); l.untouched[string(k)] = v }
+func cat(xs ...[]byte) []byte            { return bytes.Join(xs, nil) }
 func pick[T any](r *rand.Rand, xs []T) T { return xs[r.Intn(len(xs))] }
 
 const c16Height = 14 // ledger.CurrentIndex() seen by the update of part B
@@ -823,9 +863,9 @@ func (l *legacy) genNotary(t testing.TB, r *rand.Rand, p *c16Pools, purge bool, 
 		l.ExpectFault = "notary flag longer than 32 bytes"
 	}
 	ballot := func(age int64) stackitem.Item {
-		id := hash.Sha256([]byte{byte(age), byte(r.Intn(3))}).BytesBE()
+		id := hash.Sha256([]byte{byte(age)}).BytesBE()[:8]
 		var voters []stackitem.Item
-		for i := 0; i <= r.Intn(3); i++ {
+		for i := 0; i < int(age)%2; i++ {
 			voters = append(voters, siBytes(p.pub[i]))
 		}
 		return siStruct(siBytes(id), stackitem.NewArray(voters), siInt(c16Height-age))
@@ -880,7 +920,7 @@ func (l *legacy) genNotary(t testing.TB, r *rand.Rand, p *c16Pools, purge bool, 
 
 func newLegacy(c string, v int64) *legacy {
 	return &legacy{Contract: c, V: v, KV: map[string][]byte{}, untouched: map[string][]byte{}, Premise: true,
-		balances: map[string]int64{}, cnrs: map[string]cnrTruth{}, preX: map[string][]byte{}}
+		balances: map[string]int64{}, cnrs: map[string]c16CnrTruth{}, preX: map[string][]byte{}}
 }
 
 func (l *legacy) hostile(r *rand.Rand, p *c16Pools, lens ...int) {
@@ -957,7 +997,7 @@ func genContainer(t testing.TB, r *rand.Rand, p *c16Pools, v int64) *legacy {
 		cid := p.cid[i]
 		// attributes are a function of the id (keeps the number of distinct values small)
 		ow := p.owner[i%len(p.owner)]
-		tr := cnrTruth{value: p.container(ow, i), sig: p.junk[3], pub: p.pub[i%len(p.pub)], token: [][]byte{{}, p.junk[1]}[i%2], owner: ow}
+		tr := c16CnrTruth{value: p.container(ow, i), sig: p.junk[3], pub: p.pub[i%len(p.pub)], token: [][]byte{{}, p.junk[1]}[i%2], owner: ow}
 		val := ser(t, siStruct(siBytes(tr.value), siBytes(tr.sig), siBytes(tr.pub), siBytes(tr.token)))
 		if j < n {
 			l.put(cid, val)
@@ -993,17 +1033,17 @@ func genContainer(t testing.TB, r *rand.Rand, p *c16Pools, v int64) *legacy {
 	return l
 }
 
-type nmNode struct {
+type c16Node struct {
 	blob  []byte
 	state int64
 }
 
-type nmTruth struct {
+type c16NmTruth struct {
 	count     int64
 	current   int64
 	epoch     int64
-	snaps     map[int64][]nmNode // absent index: key missing
-	cands     []nmNode           // in key order
+	snaps     map[int64][]c16Node // absent index: key missing
+	cands     []c16Node           // in key order
 	config    map[string][]byte
 	subs      [][]byte // expected subscribers (hashes) in index order, nil = not applicable
 	nullSnaps []int64  // empty pre-0.16 snapshots (F15 regression guard)
@@ -1011,7 +1051,7 @@ type nmTruth struct {
 
 func genNetmap(t testing.TB, r *rand.Rand, p *c16Pools, v int64) *legacy {
 	l := newLegacy("netmap", v)
-	tr := &nmTruth{snaps: map[int64][]nmNode{}, config: map[string][]byte{}}
+	tr := &c16NmTruth{snaps: map[int64][]c16Node{}, config: map[string][]byte{}}
 	l.nm = tr
 	old := v < 16000
 	tr.count = int64(1 + r.Intn(5))
@@ -1030,11 +1070,11 @@ func genNetmap(t testing.TB, r *rand.Rand, p *c16Pools, v int64) *legacy {
 		if r.Intn(4) == 0 {
 			n = 0
 		}
-		var nodes []nmNode
+		var nodes []c16Node
 		var items []stackitem.Item
 		off := r.Intn(3) // node sets are slices of the blob pool (few distinct snapshots)
 		for j := off; j < off+n; j++ {
-			nd := nmNode{blob: p.blob[j], state: 1}
+			nd := c16Node{blob: p.blob[j], state: 1}
 			if !old {
 				nd.state = int64(1 + j%3)
 				items = append(items, siStruct(siBytes(nd.blob), siInt(nd.state)))
@@ -1061,7 +1101,7 @@ func genNetmap(t testing.TB, r *rand.Rand, p *c16Pools, v int64) *legacy {
 	}
 	sort.Slice(ck, func(a, b int) bool { return bytes.Compare(p.pub[ck[a]], p.pub[ck[b]]) < 0 })
 	for _, j := range ck {
-		nd := nmNode{blob: p.blob[j], state: int64(1 + r.Intn(3))}
+		nd := c16Node{blob: p.blob[j], state: int64(1 + r.Intn(3))}
 		tr.cands = append(tr.cands, nd)
 		if old {
 			l.put(cat([]byte("candidate"), p.pub[j]), ser(t, siStruct(siStruct(siBytes(nd.blob)), siInt(nd.state))))
@@ -1109,7 +1149,7 @@ func genNetmap(t testing.TB, r *rand.Rand, p *c16Pools, v int64) *legacy {
 	return l
 }
 
-type nnsName struct {
+type c16NNSName struct {
 	name   string
 	owner  []byte
 	admin  []byte
@@ -1117,15 +1157,15 @@ type nnsName struct {
 	txt    []string
 }
 
-type nnsTruth struct {
-	names  []nnsName
+type c16NNSTruth struct {
+	names  []c16NNSName
 	supply int64
 	tlds   map[string]bool
 }
 
 func genNNS(t testing.TB, r *rand.Rand, p *c16Pools, v int64, h160 map[string][]byte) *legacy {
 	l := newLegacy("nns", v)
-	tr := &nnsTruth{tlds: map[string]bool{}}
+	tr := &c16NNSTruth{tlds: map[string]bool{}}
 	l.nns = tr
 	old := v < 18000
 	rip := func(s string) []byte {
@@ -1135,7 +1175,7 @@ func genNNS(t testing.TB, r *rand.Rand, p *c16Pools, v int64, h160 map[string][]
 	}
 	committee := p.acc[0]
 	bal := map[string]int64{}
-	add := func(nm nnsName, tld bool) {
+	add := func(nm c16NNSName, tld bool) {
 		var owner stackitem.Item = stackitem.Null{}
 		if nm.owner != nil {
 			owner = siBytes(nm.owner)
@@ -1166,7 +1206,7 @@ func genNNS(t testing.TB, r *rand.Rand, p *c16Pools, v int64, h160 map[string][]
 	}
 	ntld := r.Intn(len(p.tlds) + 1)
 	for _, tld := range p.tlds[:ntld] {
-		nm := nnsName{name: tld, expire: 1 << 50}
+		nm := c16NNSName{name: tld, expire: 1 << 50}
 		if old {
 			nm.owner = committee
 			if r.Intn(4) == 0 {
@@ -1195,7 +1235,7 @@ func genNNS(t testing.TB, r *rand.Rand, p *c16Pools, v int64, h160 map[string][]
 				continue
 			}
 		}
-		nm := nnsName{name: name, owner: pick(r, p.acc[:3]), expire: 1 << 50}
+		nm := c16NNSName{name: name, owner: pick(r, p.acc[:3]), expire: 1 << 50}
 		if r.Intn(3) == 0 {
 			nm.admin = p.acc[5]
 		}
@@ -1317,6 +1357,7 @@ func isNull(it stackitem.Item) bool {
 // runLegacy injects l, updates the stub to the tree's contract and checks.
 func (r *c16Run) runLegacy(l *legacy, coqName string) {
 	t := r.t
+	r.roll(false)
 	v := NewEnv(t)
 	sender := v.E.Validator.ScriptHash()
 	nw := c16Compile(t, sender, RepoDir, l.Contract)
@@ -1534,7 +1575,7 @@ func (r *c16Run) checkContainer(v *Env, h util.Uint160, l *legacy, bad func(stri
 
 func (r *c16Run) checkNetmap(v *Env, h util.Uint160, l *legacy, am map[string][]byte, bad func(string, ...any)) {
 	tr := l.nm
-	sameNodes := func(it stackitem.Item, want []nmNode) bool {
+	sameNodes := func(it stackitem.Item, want []c16Node) bool {
 		xs := itemsOf(it)
 		if len(xs) != len(want) {
 			return false
@@ -1766,7 +1807,7 @@ func (r *c16Run) corpus() []*legacy {
 	})
 	// F15 (fixed): an empty pre-0.16 snapshot must stay an empty list
 	mk("netmap", prev, func(l *legacy) {
-		l.nm = &nmTruth{count: 2, current: 0, epoch: 3, snaps: map[int64][]nmNode{0: nil, 1: {{p.blob[0], 1}}}, config: map[string][]byte{}, nullSnaps: []int64{0}}
+		l.nm = &c16NmTruth{count: 2, current: 0, epoch: 3, snaps: map[int64][]c16Node{0: nil, 1: {{p.blob[0], 1}}}, config: map[string][]byte{}, nullSnaps: []int64{0}}
 		l.put([]byte("snapshotCount"), intBytes(2))
 		l.put([]byte("snapshotCurrent"), intBytes(0))
 		l.put([]byte("snapshotEpoch"), intBytes(3))
@@ -1789,9 +1830,17 @@ func (r *c16Run) corpus() []*legacy {
 	// data shapes
 	mk("proxy", prev, func(l *legacy) { l.Data = c16Arr(); l.ExpectFault = "empty data"; l.shape("corpus:data-empty") })
 	mk("proxy", prev, func(l *legacy) { l.Data = c16Null; l.ExpectFault = "null data"; l.shape("corpus:data-null") })
-	mk("proxy", prev, func(l *legacy) { l.Data = c16Arr(c16Arr()); l.ExpectFault = "array as version"; l.shape("corpus:data-array-version") })
+	mk("proxy", prev, func(l *legacy) {
+		l.Data = c16Arr(c16Arr())
+		l.ExpectFault = "array as version"
+		l.shape("corpus:data-array-version")
+	})
 	mk("proxy", 1, func(l *legacy) { l.Data = c16Arr(c16Bool(true)); l.shape("corpus:data-bool-version") })
-	mk("processing", prev, func(l *legacy) { l.Data = c16Arr(c16Bytes(bytes.Repeat([]byte{1}, 33))); l.ExpectFault = "33-byte version"; l.shape("corpus:data-long-version") })
+	mk("processing", prev, func(l *legacy) {
+		l.Data = c16Arr(c16Bytes(bytes.Repeat([]byte{1}, 33)))
+		l.ExpectFault = "33-byte version"
+		l.shape("corpus:data-long-version")
+	})
 	return out
 }
 
@@ -1953,7 +2002,9 @@ func (r *c16Run) runAlphabetGas(ac *alphaCase, acases *[]string, stdaccRows map[
 	}
 	// Go monitor: the distribution never exceeds 3/4 of the balance, storage
 	// unchanged on fault, the notary flag is gone and the proxy stored on halt
-	bad := func(f string, a ...any) { r.st.AddViolation("C16 alphabet GAS distribution: "+fmt.Sprintf(f, a...), ac) }
+	bad := func(f string, a ...any) {
+		r.st.AddViolation("C16 alphabet GAS distribution: "+fmt.Sprintf(f, a...), ac)
+	}
 	if !res.Halt && !c16DumpEq(before, after) {
 		bad("faulted update changed the storage")
 	}
@@ -1993,7 +2044,8 @@ func (r *c16Run) runAlphabetGas(ac *alphaCase, acases *[]string, stdaccRows map[
 	r.distinct["alpha|"+ac.Name+"|"+oc] = true
 }
 
-func (r *c16Run) partC() ([]string, map[string]string) {
+func (r *c16Run) partC() {
+	r.roll(false)
 	px := r.pools.acc[7]
 	cases := []*alphaCase{
 		{Name: "2sn-1ir", Gas: 10_0000_0000, SN: 2, IR: 1, ProxyArg: px, NetmapArg: "hash", Ballots: "expired"},
@@ -2010,13 +2062,10 @@ func (r *c16Run) partC() ([]string, map[string]string) {
 		{Name: "short-blob", Gas: 10_0000_0000, SN: 2, IR: 1, ProxyArg: px, NetmapArg: "hash", ShortBlob: true, Ballots: "absent"},
 		{Name: "bad-ir-key", Gas: 10_0000_0000, SN: 1, IR: 2, ProxyArg: px, NetmapArg: "hash", BadIRKey: true, Ballots: "absent"},
 	}
-	var acases []string
-	rows := map[string]string{}
 	for _, ac := range cases {
-		r.runAlphabetGas(ac, &acases, rows)
+		r.runAlphabetGas(ac, &r.acases, r.stdaccRows)
 		if ac.Name == "2sn-1ir" {
 			r.st.Samples = append(r.st.Samples, ac)
 		}
 	}
-	return acases, rows
 }
